@@ -24,7 +24,7 @@ open Teardown
 def sysFEv : List FEv :=
   [.lookup, .dialOk, .dialErr, .dialCancel, .frontGone, .upWriteOk, .upWriteErr, .downReadOk, .downReadEof,
    .downReadErr, .downWriteDone, .cancelSeen, .caStart, .caTunnelOk, .caTunnelErr, .upExit, .downExit,
-   .joinReturn, .finishOk, .finishErr]
+   .joinReturn, .finishOk, .finishErr, .sideGone, .sideCancel]
 
 /-- data only moves on replies that had arrived; closing calls are answered while the endpoint lives -/
 def schedulable (s : St) : Ev → Bool
@@ -77,7 +77,23 @@ def pProblems (fault : String) (checkSF : Bool) (s : St) : List String :=
   (if checkSF && s.cancelled && s.sf != .returned then ["servefront-not-returned"] else []) ++
   (if goroutines then ["goroutines-left"] else [])
 
+/-- side mode: `tunnels + 1` dials that the endpoint answered and whose side connections never
+    arrive; the control connection is lost; the serving context is not cancelled.  What is
+    left is reported in the harness's vocabulary (`dial-blocked`). -/
+def sideOrphanScenario (tunnels seed : Nat) : String :=
+  let F := Gen.Teardown.facts
+  let n := tunnels + 1
+  let s0 : St := init ((List.range n).map fun _ => (0, 0))
+  let setup := (List.range n).flatMap fun i => [Ev.front i .arrive, .front i .lookup, .front i .dialSideOk]
+  match pRun F s0 (setup ++ [.sever]) with
+  | none => "setup-rejected"
+  | some s1 =>
+    let (s2, k) := pQuiesce F s1 (seed + 1) 0 100000
+    let blocked := s2.fronts.any fun f => f.hs == .sideWait || f.hs == .dialing
+    s!"after-fault= final={if blocked then "dial-blocked" else ""} steps={k}"
+
 def proxyScenario (fault : String) (tunnels seed : Nat) : String :=
+  if fault == "side-dial-orphaned" then sideOrphanScenario tunnels seed else
   if fault == "sever-backlog" || fault.startsWith "epfault-" || fault.startsWith "side-" then "n/a" else
   let F := Gen.Teardown.facts
   let hung := fault == "kick-hung" || fault == "kick-hung-hinted" || fault == "graceful-silent" || fault == "fatal-frame"
@@ -174,7 +190,8 @@ def backlogScenario (extra seed : Nat) : String :=
 
 def endpointScenario (fault : String) (tunnels seed : Nat) : String :=
   if fault == "sever-backlog" then backlogScenario (2 + tunnels) seed else
-  if fault == "kick-hung" || fault == "kick-hung-hinted" || fault == "graceful-silent" || fault == "fatal-frame" then "n/a" else
+  if fault == "kick-hung" || fault == "kick-hung-hinted" || fault == "graceful-silent" || fault == "fatal-frame" ||
+     fault.startsWith "side-" then "n/a" else
   let F := Gen.Teardown.epFacts
   let faultEvs : List Ev :=
     if fault == "sever" || fault == "kick" || fault == "epfault-cut" then [.sever]
